@@ -919,8 +919,8 @@ func c12Close(p *Prog, rp *Report) {
 		if why != "" || tv == nil || hasherT == nil || !errIsNil(tv.E[1]) {
 			problems = append(problems, "undecided: NewHasher: "+why)
 		} else {
-			e.writeN = 4242
-			e.method(tv.E[0], types.NewPointer(hasherT), "Write", byteSliceVal(e.st, []byte("x")))
+			e.writeN = 42
+			e.method(tv.E[0], types.NewPointer(hasherT), "Write", byteSliceVal(e.st, []byte(strings.Repeat("x", 42))))
 			var harg Val = tv.E[0]
 			if _, isPtr := f.Signature.Params().At(1).Type().(*types.Pointer); !isPtr {
 				if pp, ok := tv.E[0].(Ptr); ok {
@@ -934,8 +934,8 @@ func c12Close(p *Prog, rp *Report) {
 			} else {
 				fs := structOf(fhT)
 				get := func(n string) string { return valStr(sv.F[fieldIndex(fs, n)]) }
-				if !(get("Algorithm") == `"sha256"` && (get("Hash") == `"abcdef01"` || get("Hash") == `"abcdef"`) && get("Size") == "4242" && get("Filename") == `"pool/f.deb"`) {
-					problems = append(problems, fmt.Sprintf("entry built from a sha256 hasher that counted 4242 bytes: Algorithm=%s Hash=%s Size=%s Filename=%s", get("Algorithm"), get("Hash"), get("Size"), get("Filename")))
+				if !(get("Algorithm") == `"sha256"` && (get("Hash") == `"abcdef01"` || get("Hash") == `"abcdef"`) && get("Size") == "42" && get("Filename") == `"pool/f.deb"`) {
+					problems = append(problems, fmt.Sprintf("entry built from a sha256 hasher that counted 42 bytes: Algorithm=%s Hash=%s Size=%s Filename=%s", get("Algorithm"), get("Hash"), get("Size"), get("Filename")))
 				}
 			}
 		}
